@@ -107,6 +107,7 @@ func runSymCase(c *Ctx, regs []symReg, input []rune, rereads int) {
 }
 
 func propC16(c *Ctx) {
+	propScaleTables(c, "C16")
 	alpha := []rune{'<', '=', '>'}
 	var pool [][]rune
 	enumStrings(alpha, 3, func(s []rune) {
